@@ -30,6 +30,9 @@ type ExtOpt struct {
 	Part           string `json:"part,omitempty"`      // partition id of every block
 	WithMinMax     bool   `json:"withminmax,omitempty"`
 	ShuffleRegion  bool   `json:"shuffle,omitempty"` // write filter sections in reverse block order inside the region
+	// NoSectionMask: bit i set = block i has no filter section (BloomFilterSize 0)
+	// while other blocks of the same file have one
+	NoSectionMask int `json:"nosecmask,omitempty"`
 }
 
 var crcTable = crc32.MakeTable(crc32.Castagnoli)
@@ -226,7 +229,7 @@ func writeExternalFile(w *World, cfg EngCfg, cfgIdx int, st Step, nextID *int) (
 			return nil, err
 		}
 		offset += data.Len()
-		if opt.NoBlockFilters {
+		if opt.NoBlockFilters || opt.NoSectionMask&(1<<uint(len(sections))) != 0 {
 			sections = append(sections, nil)
 		} else {
 			f, t, ft := es.filters(cfg.FPR, opt.FilterPad, opt.AbsentFilter)
